@@ -148,12 +148,13 @@ def generate(rng, tier):
             for pos in itertools.combinations(range(k), 2):
                 for obj in ("gv", "gl", "gs"):
                     combos.append((k, pos, obj))
-        if per is not None:
+        mutator = name.endswith("!")          # aliasing matters most where the procedure writes: enumerate fully
+        if per is not None and not mutator:
             combos = rng.sample(combos, 14)
         for k, pos, obj in combos:
             fills = [[0, 1, 2]] * (k - 2)
             allf = list(itertools.product(*fills)) if fills else [()]
-            if per is not None or len(allf) > 9:
+            if not mutator and (per is not None or len(allf) > 9):
                 allf = rng.sample(allf, min(len(allf), 2 if per is not None else 9))
             for fl in allf:
                 it = iter(fl)
